@@ -75,11 +75,28 @@ def flags_of(doc: dict):
     return bool(cfg.get("mnemonics-full-match", False)), bool(cfg.get("operands-full-match", False))
 
 
-def locate(prep: Prepared, hits: List[str]):
-    """Map full-text hits (in scan order) to record windows; None for a hit that is not record-aligned."""
+SCAN = None
+
+
+def _scan_recorder():
+    """H3 (once per process): match spans as yielded by regex.search/finditer inside jasm.consumer."""
+    global SCAN
+    if SCAN is None:
+        from . import hooks
+        SCAN = hooks.Recorder()
+        hooks.install_scan_hook(SCAN)
+    return SCAN
+
+
+def locate(prep: Prepared, hits: List[str], spans=None):
+    """Map full-text hits (in scan order) to record windows; None for a hit that is not record-aligned.
+    With match spans observed at the hook the mapping is exact; the text search is the fallback (it is ambiguous only
+    when identical records repeat in the listing)."""
     s = prep.stream
     starts = {a: i for i, (a, _) in enumerate(prep.spans)}
     ends = {b: i + 1 for i, (_, b) in enumerate(prep.spans)}
+    if spans is not None and len(spans) == len(hits) and all(s[a:b] == h for (a, b), h in zip(spans, hits)):
+        return [(starts[a], ends[b]) if a in starts and b in ends else None for a, b in spans]
     out = []
     pos = 0
     for h in hits:
@@ -111,18 +128,21 @@ def evaluate(ws: real.Workspace, prep: Prepared, rule_text: str, macros=None, qu
         o.model_unsupported = str(e)
     o.found_model = bool(o.model_windows)
     rp = ws.write("rule.yaml", rule_text)
+    rec = _scan_recorder()
+    rec.clear()
     r = real.match(rp, prep.path, ret="list", search="all", only_addr=False, macros=macros)
+    spans = [(e[1], e[2]) for e in rec.events if e[0] == "span"] if not rec.missing else None
     if r[0] != "ok":
         o.status, o.exc = "exc", (r[1], r[2])
-        if r[1] == "TimeoutError" or "timeout" in r[2].lower() or "timed out" in r[2].lower():
+        if r[1] in ("TimeoutError", "MemoryError") or "timeout" in r[2].lower() or "timed out" in r[2].lower():
             # JASM's own 60 s regex budget was exhausted (nested quantifiers): no verdict either way
-            o.status, o.verdict, o.why = "timeout", "inconclusive", "regex engine timeout"
+            o.status, o.verdict, o.why = "timeout", "inconclusive", "regex engine timeout / memory limit"
             return o
         o.verdict, o.why = "disagree", f"real raised {r[1]}: {r[2]} on a rule the model accepts"
         return o
     o.hits, o.regex = list(r[1]), r[2]
     o.found_real = bool(o.hits)
-    o.real_windows = locate(prep, o.hits)
+    o.real_windows = locate(prep, o.hits, spans)
     if o.model_unsupported is None:
         compare(o)
     return o
